@@ -101,6 +101,16 @@ pub fn data(kind: &str, n: usize, r: &mut StdRng) -> Vec<u8> {
                 }
             }
         }
+    } else if kind == "runs259" {
+        // runs of exactly 259 equal bytes: a literal followed by a maximal (258) match, over and over
+        let mut b: u8 = r.gen();
+        while v.len() < n {
+            b = b.wrapping_add(1 + r.gen_range(0..200));
+            let len = if r.gen_range(0..8) == 0 { r.gen_range(1..300) } else { 259 };
+            for _ in 0..len.min(n - v.len()) {
+                v.push(b);
+            }
+        }
     } else if kind == "runs" {
         while v.len() < n {
             let b: u8 = r.gen();
